@@ -608,6 +608,22 @@ def _hashseed_case(res, case):
             if a == b and base["out"] == o["out"] and len(sa) == len(sb) and \
                     all(abs(x - y) < 1e-3 for x, y in zip(sa, sb)):
                 mech = "tiebreak-order-follows-hash-seed"
+            else:
+                # the tie-breaker digits also decide which of several assignments that tie without them are
+                # within solver precision of the optimum: same structure and major solution everywhere, every
+                # reported refinement of either process at the same score up to the tie-breaker
+                def upper(sig):
+                    s2 = json.loads(json.dumps(sig))
+                    for v in s2.values():
+                        for d in v:
+                            d.pop("score"), d.pop("minor"), d.pop("diplotype", None)
+                    return {k: sorted(map(json.dumps, v)) for k, v in s2.items()}
+
+                ua, ub = upper(base["sig"]), upper(o["sig"])
+                if {k: set(v) for k, v in ua.items()} == {k: set(v) for k, v in ub.items()} and \
+                        all(len(set(v)) == 1 for v in ua.values()) and sa and sb and \
+                        max(sa + sb) - min(sa + sb) < 1e-3:
+                    mech = "tiebreak-order-follows-hash-seed"
         res.check("hash_seed_independent", same,
                   "a fresh process with a different hash seed gave a different result",
                   mech=mech, hash_seed=hs, base=str(base)[:300], other=str(o)[:300], **desc)
